@@ -1,8 +1,8 @@
 INIT GenInit
 NEXT GenNext
 CONSTANTS
-  Dev = "none"
-  Configs <- ConfigsSim
+  Dev = "pong-empty"
+  Configs <- ConfigsDevCtl
   NegSet <- Plain
   WBuf = 128
 INVARIANTS Emit
